@@ -232,3 +232,59 @@ func c02MapModel(maxPre, steps int) {
 	}
 	rt.Reach("model-end")
 }
+
+// ---- an exclusively used read cache never serves a record past its expiry ----
+
+func VerifC02_CachedExpiry() {
+	rt.SchedYieldOnly(true)
+	shadow := rt.Bool("shadowdelete")
+	c := c02Setup(shadow)
+	cached := NewInterface(&Options{Local: true, Internal: true, CacheSize: 4})
+	now := time.Now().Unix()
+	r := &c02Rec{N: 7}
+	r.SetKey("t:a")
+	r.UpdateMeta()
+	// expiry: none, in the past, this very second, 1 or 2 seconds ahead
+	var expires int64
+	switch rt.Choice("expiry", 5) {
+	case 1:
+		expires = now - 10
+	case 2:
+		expires = now
+	case 3:
+		expires = now + 1
+	case 4:
+		expires = now + 2
+	}
+	r.Meta().Expires = expires
+	// the record enters the cache through a write or through a read
+	if rt.Bool("viaPut") {
+		rt.Assert(cached.Put(r) == nil, "cachedexpiry/put-ok")
+		// Put refreshes the meta data but keeps the expiry
+		rt.Assert(r.Meta().Expires == expires, "cachedexpiry/put-keeps-expiry")
+	} else {
+		_, _ = c.storage.Put(r)
+		_, _ = cached.Get("t:a")
+	}
+	// the clock advances between the operations (a cache entry with zero time
+	// to live is dead only once the clock has moved on: on the frozen virtual
+	// clock a read "at the same instant" would still see it)
+	time.Sleep(time.Millisecond)
+	wait := rt.Choice("wait", 4)
+	time.Sleep(time.Duration(wait) * time.Second)
+	now2 := time.Now().Unix()
+	visible := rt.Any(expires == 0, expires >= now2)
+	got, err := cached.Get("t:a")
+	if visible {
+		rt.Assert(err == nil, "cachedexpiry/visible-record-found")
+		if err == nil {
+			rt.Assert(got.(*c02Rec).N == 7, "cachedexpiry/data")
+		}
+	} else {
+		rt.Assert(errors.Is(err, ErrNotFound), "cachedexpiry/expired-record-not-found-through-cache")
+	}
+	ex, err := cached.Exists("t:a")
+	rt.Assert(err == nil, "cachedexpiry/exists-ok")
+	rt.Assert(ex == visible, "cachedexpiry/exists-iff-visible")
+	rt.Reach("cachedexpiry-end")
+}
